@@ -10,7 +10,7 @@ for pid in ids:
     if pid not in props.PROPS:
         continue
     sp = props.PROPS[pid]
-    meta = mm.META.get(pid, {})
+    meta = props.META.get(pid, {})
     checks.append({
         "property_id": pid,
         "quick_cmd": f"./check {pid} quick",
